@@ -249,7 +249,118 @@ def spline_oracle(obj, j):
             'knots': [[float(t), float(c)] for t, c in zip(raw.Ts, raw.ND_Cps)]}
 
 
-JOBS = {'estimate': job_estimate, 'libinfo': job_libinfo, 'corr': job_corr}
+def snap(o):
+    return {'H': None if o.ND_H_ref is None else num(o.ND_H_ref), 'S': None if o.ND_S_ref is None else num(o.ND_S_ref),
+            'tab': [[float(t), num(v)] for t, v in o.ND_Cp_data.items()] if o.ND_Cp_data else [],
+            'range': rng_of(o), 'T_ref': float(o.T_ref), 'has_corr': hasattr(o, '_correlation')}
+
+
+def job_update_seq(j):
+    try:
+        cur = mk_inc(j['init'])
+    except Exception as e:
+        return {'exc': exc_name(e)}
+    out = []
+    for st in j['steps']:
+        try:
+            other = mk_inc(st['other'])
+        except Exception as e:
+            out.append({'other_exc': exc_name(e)})
+            continue
+        before = snap(other)
+        r = {}
+        with warnings.catch_warnings(record=True):
+            warnings.simplefilter('always')
+            try:
+                if st.get('overwrite') is None:
+                    cur.update(other)
+                else:
+                    cur.update(other, st['overwrite'])
+            except Exception as e:
+                r['exc'] = exc_name(e)
+                r['msg'] = str(e)[:120]
+        r['state'] = snap(cur)
+        r['other_unchanged'] = snap(other) == before
+        if st.get('eval'):
+            r['vals'] = eval_props(cur, st['eval'], ('cp', 'h', 's'))
+        out.append(r)
+    return {'steps': out}
+
+
+def job_load_tree(j):
+    try:
+        with warnings.catch_warnings(record=True):
+            warnings.simplefilter('always')
+            lib = GroupLibrary.Load(j['path'])
+    except Exception as e:
+        return {'exc': exc_name(e), 'msg': str(e)[:200]}
+    res = {}
+    vals = {}
+    for k in lib:
+        ps = lib[k]
+        res[str(k)] = snap(ps['thermochem']) if 'thermochem' in ps else None
+        if j.get('evalTs') and 'thermochem' in ps:
+            vals[str(k)] = eval_props(ps['thermochem'], j['evalTs'], ('cp', 'h', 's'))
+    return {'contents': res, 'order': [str(k) for k in lib], 'vals': vals}
+
+
+def job_yaml_roundtrip(j):
+    from pgradd.ThermoChem import ThermochemGroup
+    import tempfile
+    import shutil
+    try:
+        if j.get('lib'):
+            obj = get_lib(j['lib'])[j['name']]['thermochem']
+        else:
+            kw = {}
+            if j.get('range') is not None:
+                kw['range'] = tuple(j['range'])
+            obj = ThermochemGroup(j.get('H'), j.get('S'), dict(zip(j.get('Ts', []), j.get('Cps', []))), j['T_ref'], **kw)
+    except Exception as e:
+        return {'ctor_exc': exc_name(e)}
+    before = snap(obj)
+    out = {'before': before, 'variants': []}
+    for units in j['units']:
+        v = {'units': units}
+        try:
+            text = obj.yaml_format(units) if units is not None else obj.yaml_format()
+            v['text'] = text
+        except Exception as e:
+            v['format_exc'] = exc_name(e)
+            v['msg'] = str(e)[:200]
+            out['variants'].append(v)
+            continue
+        d = tempfile.mkdtemp(dir=os.getcwd(), prefix='rt_')
+        try:
+            with open(os.path.join(d, 'scheme.yaml'), 'w') as f:
+                f.write('patterns: []\n')
+            with open(os.path.join(d, 'library.yaml'), 'w') as f:
+                f.write("groups:\n  'X(Y)':\n    'thermochem':\n" + '\n'.join('      ' + ln for ln in text.split('\n')) + '\n')
+            try:
+                with warnings.catch_warnings(record=True):
+                    warnings.simplefilter('always')
+                    lib = GroupLibrary.Load(os.path.join(d, 'library.yaml'))
+                v['after'] = snap(lib['X(Y)']['thermochem'])
+            except Exception as e:
+                v['load_exc'] = exc_name(e)
+                v['msg'] = str(e)[:300]
+            # direct route: parse + load with the registered class
+            try:
+                from pgradd import yaml_io
+                with warnings.catch_warnings(record=True):
+                    warnings.simplefilter('always')
+                    o2 = yaml_io.load(yaml_io.parse(text), {}, tag='ThermochemGroup')
+                v['after_direct'] = snap(o2)
+            except Exception as e:
+                v['direct_exc'] = exc_name(e)
+        finally:
+            shutil.rmtree(d, ignore_errors=True)
+        out['variants'].append(v)
+    out['unchanged'] = snap(obj) == before
+    return out
+
+
+JOBS = {'yaml_roundtrip': job_yaml_roundtrip, 'update_seq': job_update_seq, 'load_tree': job_load_tree, 'estimate': job_estimate, 'libinfo': job_libinfo, 'corr': job_corr}
 
 
 def main():
